@@ -16,16 +16,23 @@ CODEC_CLASSES = ("Dimension", "Prefix", "Unit", "Quantity")
 PICKLE_HOOKS = ("__reduce__", "__reduce_ex__", "__getstate__", "__setstate__", "__copy__", "__deepcopy__")
 
 
+_EXPAND: List[Any] = []      # set by run(): expands one-expression helpers of the core module (sa/inline.py)
+
+
 def written_dict(fn: ast.AST) -> Dict[str, ast.AST]:
     """key -> value expression of the dict a writer returns: a literal, dict(k=v, ..), or a local that starts
     as one of those and is filled key by key."""
     out: Dict[str, ast.AST] = {}
 
     def add(e: Optional[ast.AST]) -> None:
+        if e is not None and _EXPAND:
+            e = _EXPAND[0](e)       # `_tagged("Unit", {...})` -> the helper's own dict display with the arguments substituted
         if isinstance(e, ast.Dict):
             for k, v in zip(e.keys, e.values):
                 if isinstance(k, ast.Constant) and isinstance(k.value, str):
                     out[k.value] = v
+                elif k is None:
+                    add(v)          # {**fields}
         elif isinstance(e, ast.Call) and ast.unparse(e.func) == "dict":
             for a in e.args:
                 add(a)
@@ -337,6 +344,8 @@ def pydantic_schema(rep: Report, prog: Program) -> None:
 def run(rep: Report) -> None:
     prog = Program()
     resolver = Resolver(prog)
+    from ..inline import expand_expr
+    _EXPAND[:] = [lambda e: expand_expr(prog, "", e)]
     rep.rule("R15.1", "__getnewargs_ex__ of Dimension/Prefix/Unit returns, position by position, the attributes __new__ builds "
              "its intern key from (copy and pickle re-enter the interning constructor); a base unit also passes its name", floor=4)
     rep.rule("R15.2", "writer/reader tables: keys read by __from_json__ are written by __json__; the __measured__ tag each writer "
@@ -599,14 +608,12 @@ def run(rep: Report) -> None:
     uj = prog.func("Unit.__json__")
     marker = False
     local_defs = {n.targets[0].id: n.value for n in ast.walk(uj.node) if isinstance(n, ast.Assign) and len(n.targets) == 1 and isinstance(n.targets[0], ast.Name)}
-    for r in ast.walk(uj.node):
-        if isinstance(r, ast.Return) and isinstance(r.value, ast.Dict):
-            for k, v in zip(r.value.keys, r.value.values):
-                if isinstance(k, ast.Constant) and k.value == "factors":
-                    e = local_defs.get(v.id, v) if isinstance(v, ast.Name) else v
-                    txt = ast.unparse(e)
-                    marker = "None" in txt or any(isinstance(x, ast.Assign) and "None" in ast.unparse(x.value) and isinstance(v, ast.Name)
-                                                  and any(isinstance(t, ast.Name) and t.id == v.id for t in x.targets) for x in ast.walk(uj.node))
+    v = written_dict(uj.node).get("factors")
+    if v is not None:
+        e = local_defs.get(v.id, v) if isinstance(v, ast.Name) else v
+        txt = ast.unparse(e)
+        marker = "None" in txt or any(isinstance(x, ast.Assign) and "None" in ast.unparse(x.value) and isinstance(v, ast.Name)
+                                      and any(isinstance(t, ast.Name) and t.id == v.id for t in x.targets) for x in ast.walk(uj.node))
     rep.check("R15.5", "Unit.__json__:base-marker", marker,
               "Unit.__json__ no longer marks base units by factors = None (the reader's test for a base unit)", uj.where())
 
